@@ -156,17 +156,12 @@ pub struct Cycle {
 impl Cycle {
     /// Creates a new [Cycle] adaptor
     pub fn new(iter: KIterator) -> Self {
-        let (lower_bound, _) = iter.size_hint();
-        let size_hint = if lower_bound < usize::MAX {
-            lower_bound
-        } else {
-            0
-        };
-
+        // The cache grows as the input gets consumed, it isn't allocated up front:
+        // the input may be endless or very long, and might never be consumed.
         Self {
             iter,
             iter_finished: false,
-            cache: Vec::with_capacity(size_hint),
+            cache: Vec::new(),
             cycle_index: 0,
         }
     }
